@@ -197,6 +197,14 @@ func VerifC14Serve(k1, k2, k3 int) {
 			verifAssert(found, "handler-got-the-decoded-message-and-the-sender-as-peer")
 		}
 	}
+	// every datagram is decoded on its own: no two handler calls are given the same message
+	// object, nor messages that share memory (byte-identical datagrams included)
+	for i := range calls {
+		for j := i + 1; j < len(calls); j++ {
+			verifAssert(calls[i].m != calls[j].m, "each-datagram-gets-a-message-of-its-own")
+			verifAssert(!verifShares(calls[i].m, calls[j].m), "each-datagram-gets-a-message-of-its-own")
+		}
+	}
 	verifReach("end")
 }
 
